@@ -57,6 +57,7 @@ def guards(rep, tier):
 def bounded(rep, tier, seed):
     from _gettsim.config import DEFAULT_TARGETS
     from _gettsim.interface import FunctionsAndColumnsOverlapWarning
+    from _gettsim.shared import remove_group_suffix
 
     rng = random.Random(seed)
     n_eval = 0
@@ -96,7 +97,7 @@ def bounded(rep, tier, seed):
                     shuffled.index = list(reversed(range(len(pop))))
                     data = {c: shuffled[c] for c in shuffled.columns}
                     data[n_] = pd.Series(col.to_numpy())  # RangeIndex: entries do not share one index
-                if form == "dict" and tier == "quick" and rng.random() < 0.6:
+                if form == "dict" and tier == "quick" and rng.random() < 0.6 and remove_group_suffix(n_) == n_:
                     continue
                 tg = [t for t in defaults if t != n_]
                 try:
